@@ -14,6 +14,10 @@ import (
 
 const apiPrefix = "/api/v1"
 
+// OtherHeaders: request headers, other than Authorization, given arbitrary values in HarnessAuth.
+var OtherHeaders = []string{"Origin", "Access-Control-Request-Method", "Access-Control-Request-Headers", "X-Forwarded-For", "X-Real-Ip", "X-Api-Key",
+	"X-Auth-Token", "Cookie", "Upgrade", "Connection", "Referer", "User-Agent", "X-Requested-With", "X-Forwarded-Proto", "X-Internal", "Proxy-Authorization"}
+
 func paramsOf(pattern string) map[string]string {
 	ps := map[string]string{}
 	for _, seg := range strings.Split(pattern, "/") {
@@ -89,7 +93,13 @@ func HarnessAuth(useAuth int, profiling int, k int) {
 		}
 		header += atoms[i]
 	}
-	req := vhgin.Req{Params: paramsOf(r.Path), Headers: map[string]string{"Authorization": header}, BindFails: true}
+	// besides the Authorization header the request carries arbitrary (possibly absent) values of
+	// the headers that proxies, browsers and other authentication schemes use
+	headers := map[string]string{"Authorization": header}
+	for _, name := range OtherHeaders {
+		headers[name] = vh.NondetAtom("header")
+	}
+	req := vhgin.Req{Params: paramsOf(r.Path), Headers: headers, BindFails: true}
 	before := vhdb.WriteCount(db)
 
 	resp := vhgin.Serve(app.Engine, r.Method, r.Path, req)
